@@ -128,10 +128,10 @@ type frame struct {
 }
 
 type env struct {
-	ops  map[string]uint32 // frame id -> set of possible operations (bit i = AllOps[i], bit len = other)
-	last map[string]int8   // loop key -> +1 (this iteration is the last) / -1 (it is not)
-	phis map[string]int    // frame id + phi name -> chosen edge
-	lenz map[string]int8   // origin string -> +1 len==0, -1 len>0
+	ops  map[string]uint32    // frame id -> set of possible operations (bit i = AllOps[i], bit len = other)
+	last map[string]int8      // loop key -> +1 (this iteration is the last) / -1 (it is not)
+	phis map[string]int       // frame id + phi name -> chosen edge
+	lenz map[string]int8      // origin string -> +1 len==0, -1 len>0
 	rets map[string]*origin.O // calling frame id + call register -> origin of the value a pure helper returned on this path
 }
 
